@@ -98,33 +98,53 @@ Proof. exact final_phases_range. Qed.
 
 (* PARTIAL.  Synchrony is absorbing on a complete network, as a statement about pending firing times over a
    batch of consecutive events at one time T.  Proved from the model: the node that fires is the one whose
-   pending time is T.  HYPOTHESISED (they are statements about the floating-point maps, which the model
-   receives as oracle values): every other node is moved to upd(its pending time) for one function upd
-   (complete network: every other node is a neighbour; the update depends on the pending time alone), the
-   firing nodes all go to nxt <> T, upd T is T or nxt (a node due now is passed over, or synchronises), and
-   upd nxt = nxt (phase 0 maps to itself).  Conclusion: equal pending times are equal after the batch; hence the
-   number of distinct pending times does not increase and no synchronised group shrinks.
+   pending time is T, and every other node whose pending time is T keeps it (it is passed over; this needs of the
+   oracle only [round_one]: round(x, 5) of exactly 1 is 1, which Tie/C20.v checks on every run).
+   HYPOTHESISED (they are statements about the floating-point maps, which the model receives as oracle values):
+   every other node NOT due at T is moved to upd(its pending time) for one function upd (complete network: every
+   other node is a neighbour; the update depends on the pending time alone), the firing nodes all go to
+   nxt <> T, and upd nxt = nxt (phase 0 maps to itself).  Conclusion: equal pending times are equal after the
+   batch; hence the number of distinct pending times does not increase and no synchronised group shrinks.
    Not proved: that the shipped phaseToState/stateToPhase/round satisfy the hypotheses (D checks the conclusion
-   on every complete-network run). *)
+   on every complete-network run).
+   History: the former hypothesis "upd T = T or upd T = nxt" (a node due now is passed over, or synchronises) was
+   FALSE of the code before the repair F18 (cascade tested phaseToState(phase) == 1.0, and phaseToState(1.0) is not
+   1.0 in binary64 for dissipation 0.01, 0.1, 1e-6, ...: with a negative coupling the node left its group). *)
 Theorem C20_sync_absorbing_partial : forall cfg (ub : Q -> Q) oracle orders T nxt (upd : Q -> Q),
   (forall x y, x <= y -> ub x <= ub y) -> 0 <= pc_period cfg ->
   let tb := pulse_table cfg oracle orders in
   (forall s h n, reach cfg oracle orders s -> head (queue s) = Some h -> e_live h = true -> e_time h = T ->
-     e_elem h = EN n -> forall m, m <> n -> ptime (pend_step tb h s) m = option_map upd (ptime s m)) ->
+     e_elem h = EN n -> forall m, m <> n -> ptime s m <> Some T -> ptime (pend_step tb h s) m = option_map upd (ptime s m)) ->
   (forall s h n, reach cfg oracle orders s -> head (queue s) = Some h -> e_live h = true -> e_time h = T ->
      e_elem h = EN n -> ptime (pend_step tb h s) n = Some nxt) ->
-  nxt <> T -> (upd T = T \/ upd T = nxt) -> upd nxt = nxt ->
+  nxt <> T -> upd nxt = nxt ->
   forall s s', reach cfg oracle orders s -> tbatch cfg oracle orders T s s' -> good ub (pw_reqs (world s')) ->
+  round_one (pw_reqs (world s')) ->
   (forall m, ptime s' m <> Some T) ->
   (forall a b, ptime s a = ptime s b -> ptime s' a = ptime s' b)
   /\ (ndistinct Z (option Q) optQ_dec (pc_nodes cfg) (ptime s') <= ndistinct Z (option Q) optQ_dec (pc_nodes cfg) (ptime s))%nat
   /\ (forall a, In a (pc_nodes cfg) ->
         (group Z (option Q) optQ_dec (pc_nodes cfg) (ptime s) a <= group Z (option Q) optQ_dec (pc_nodes cfg) (ptime s') a)%nat).
 Proof.
-  intros cfg ub oracle orders T nxt upd Hm Hp tb H1 H2 H3 H4 H5 s s' R Hb Hg Hend.
+  intros cfg ub oracle orders T nxt upd Hm Hp tb H1 H2 H3 H5 s s' R Hb Hg Hr Hend.
   split.
-  - intros a b. exact (sync_absorbing_model cfg ub Hm Hp oracle orders T nxt upd H1 H2 H3 H4 H5 s s' a b R Hb Hg Hend).
-  - exact (sync_counts_model cfg ub Hm Hp oracle orders T nxt upd H1 H2 H3 H4 H5 s s' R Hb Hg Hend).
+  - intros a b. exact (sync_absorbing_model cfg ub Hm Hp oracle orders T nxt upd H1 H2 H3 H5 s s' a b R Hb Hg Hr Hend).
+  - exact (sync_counts_model cfg ub Hm Hp oracle orders T nxt upd H1 H2 H3 H5 s s' R Hb Hg Hr Hend).
+Qed.
+
+(* The part of the synchrony clause that is no longer a hypothesis: when a node fires at T, every OTHER node whose
+   firing is pending at T is still pending at T afterwards (cascade reads its phase, the rounding of exactly 1, and
+   passes it over).  Before the repair F18 cascade tested phaseToState(phase) == 1.0, which fails in binary64 for
+   some dissipations, and this was false of the code. *)
+Theorem C20_due_now_passed_over : forall cfg (ub : Q -> Q) oracle orders T s h n m,
+  (forall x y, x <= y -> ub x <= ub y) -> 0 <= pc_period cfg ->
+  let tb := pulse_table cfg oracle orders in
+  reach cfg oracle orders s -> head (queue s) = Some h -> e_live h = true -> e_time h = T -> e_elem h = EN n ->
+  good ub (pw_reqs (world s)) -> round_one (pw_reqs (world (pend_step tb h s))) ->
+  m <> n -> ptime s m = Some T -> ptime (pend_step tb h s) m = Some T.
+Proof.
+  intros cfg ub oracle orders T s h n m Hm Hp tb R Hh Hl Ht He Hg Hr Hmn Hpt.
+  exact (due_now_kept cfg ub Hm Hp oracle orders T s h n m R Hh Hl Ht He Hg Hr Hmn Hpt).
 Qed.
 
 (* ------------------------------------------------------------------ non-vacuity *)
@@ -137,14 +157,13 @@ Definition ex_oracle : list (rkind * Q) :=
   [(RR, 1 # 4); (RG, 5955422397294589 # 36028797018963968); (RN, 3759154608966153 # 4503599627370496); (RT, 3759154608966153 # 4503599627370496);
    (RR, 1 # 2); (RG, 212536501914567 # 562949953421312); (RN, 2803310624053039 # 4503599627370496); (RT, 2803310624053039 # 4503599627370496);
    (RN, 1 # 1); (RT, 7306910251423535 # 4503599627370496); (RN, 1773877821228691 # 2251799813685248); (RS, 3854826337731417 # 4503599627370496);
-   (RN, 1773877821228691 # 2251799813685248); (RS, 3854826337731417 # 4503599627370496); (RG, 4369114592791149 # 4503599627370496);
+   (RG, 4369114592791149 # 4503599627370496);
    (RN, 4369122142497213 # 4503599627370496); (RN, 8606559031890113 # 288230376151711744); (RT, 1468894054463161 # 2251799813685248);
    (RN, 4369122142497213 # 4503599627370496); (RN, 1 # 1); (RT, 3720693868148409 # 2251799813685248);
-   (RN, 8606559031890113 # 288230376151711744); (RS, 3605401984276117 # 72057594037927936); (RN, 8606559031890113 # 288230376151711744);
-   (RS, 3605401984276117 # 72057594037927936); (RG, 125340932159485 # 1125899906842624); (RN, 8022171944242517 # 72057594037927936);
+   (RN, 8606559031890113 # 288230376151711744); (RS, 3605401984276117 # 72057594037927936); (RG, 125340932159485 # 1125899906842624); (RN, 8022171944242517 # 72057594037927936);
    (RN, 8004427761710677 # 9007199254740992); (RT, 6940001989781661 # 4503599627370496); (RN, 8022171944242517 # 72057594037927936);
    (RN, 1 # 1); (RT, 2860900404288039 # 1125899906842624); (RN, 8004427761710677 # 9007199254740992); (RS, 4174958880980699 # 4503599627370496);
-   (RN, 8004427761710677 # 9007199254740992); (RS, 4174958880980699 # 4503599627370496); (RG, 4884083242615269 # 4503599627370496);
+   (RG, 4884083242615269 # 4503599627370496);
    (RN, 1221015930972689 # 1125899906842624); (RN, 0 # 1); (RT, 6940001989781661 # 4503599627370496); (RN, 1 # 1); (RN, 1 # 1);
    (RT, 2860900404288039 # 1125899906842624)].
 Definition ex_orders : list (list Z) := [[0]; [1]; [0]]%Z.
